@@ -41,8 +41,16 @@ def run_impl(mod, cases, build_cache):
             build_cache[bk] = binp
             bsec += secs
         jobs = getattr(mod, "HARNESS_JOBS", None)
-        res.update(core.run_harness(build_cache[bk], area, cs, isolate=isolate, timeout_ms=timeout_ms,
-                                    extra=extra, jobs=jobs))
+        r1 = core.run_harness(build_cache[bk], area, cs, isolate=isolate, timeout_ms=timeout_ms,
+                              extra=extra, jobs=jobs)
+        # a watchdog expiry on a loaded machine is not a divergence: confirm each one alone, with
+        # four times the budget, before it becomes an observation
+        again = [c for c in cs if isolate and "diverged" in [x for x in r1.get(c["id"], []) if isinstance(x, str)]]
+        if again:
+            r2 = core.run_harness(build_cache[bk], area, again, isolate=True, timeout_ms=timeout_ms * 4,
+                                  extra=extra, jobs=2)
+            r1.update(r2)
+        res.update(r1)
     return res, bsec
 
 
